@@ -153,11 +153,13 @@ inductive Next
   deriving DecidableEq, Repr
 
 /-- `ExtDiagBlockIter::next` at cursor `cursor` over `raw_diag_buffer()`.
-Panic sites: the `unwrap()` of `raw_diag_buffer()` (no buffer attached), `remainder[0]`,
-`&remainder[1..length]` (twice), `remainder[1]`/`remainder[2]`, `unreachable!()`. -/
+No buffer attached (`raw_diag_buffer()` is `None`): `None`, cursor untouched (since /repo b0f2752;
+before that the `unwrap()` panicked — finding C17-N1).
+Panic sites: `remainder[0]`, `&remainder[1..length]` (twice), `remainder[1]`/`remainder[2]`,
+`unreachable!()`, and the slice inside `raw_diag_buffer()` itself (`Raw.panic`). -/
 def next (raw : Raw) (cursor : Nat) : Next :=
   match raw with
-  | .none => .panic
+  | .none => .done cursor
   | .panic => .panic
   | .some rb =>
     if cursor ≥ rb.length then .done cursor else
@@ -223,7 +225,8 @@ def iterBlocks (raw : Raw) : Iter := collect (rawLen raw + 1) raw 0
 
 def ExtDiag.blocks (e : ExtDiag) : Iter := iterBlocks e.raw
 
-/-- `impl Debug for ExtendedDiagnostics`: iterates only when a buffer exists. `true` = it panics
+/-- `impl Debug for ExtendedDiagnostics`: iterates only when a buffer exists (it keeps its own
+`is_available()` guard). `true` = it panics
 or does not return. -/
 def ExtDiag.debugFails (e : ExtDiag) : Bool :=
   if e.isAvailable then (match e.blocks with | .ok _ => false | _ => true) else false
